@@ -40,6 +40,7 @@ AcctTampers == {
   \* state -> account record
   "proof_other_account", "path_pruned", "state_other", "state_modified", "state_empty", "absent_with_state",
   "leaf_lt_stale", "leaf_lt_rehashed",
+  "proof_stored_hash",         \* the tree is the right one, the Merkle-proof cell above it stores another hash
   \* containers
   "proof_one_root", "proof_three_roots", "proof_swapped", "proof_not_exotic", "proof_trunc", "proof_garbage", "proof_empty",
   "state_trunc", "state_two_roots"}
@@ -72,7 +73,7 @@ AcctReason(t) ==
     [] t \in {"state_other", "state_modified"} -> "account:hash"
     [] t = "state_empty" -> "account:present-but-empty"
     [] t = "absent_with_state" -> "account:absent-but-state"
-    [] t = "leaf_lt_stale" -> "proof:malformed"
+    [] t \in {"leaf_lt_stale", "proof_stored_hash"} -> "proof:malformed"
     [] t = "leaf_lt_rehashed" -> "state-hash"
     [] t \in {"proof_one_root", "proof_three_roots"} -> "proof:roots"
     [] t = "proof_swapped" -> "root-hash"
@@ -106,10 +107,10 @@ BlockRows == {[api |-> "block", policy |-> x[1], via |-> x[3], base |-> x[2], ta
 \* ------------------------------------------------------------------ getBlockHeader / lookupBlock
 HeaderBases == {"real4", "real5", "mc", "sb"}
 HeaderTampers == {"none", "ans_id_other", "ans_id_file_hash", "proof_other_block", "id_seqno", "info_pruned", "proof_trunc", "proof_garbage", "proof_two_roots",
-                  "proof_not_exotic", "proof_stale_hash"}
+                  "proof_not_exotic", "proof_stale_hash", "proof_stored_hash"}
 HeaderRsn(t) == CASE t = "none" -> "" [] t \in {"ans_id_other", "ans_id_file_hash"} -> "id" [] t = "proof_other_block" -> "root-hash" [] t = "id_seqno" -> "header-id"
                   [] t = "info_pruned" -> "block:info-pruned" [] t \in {"proof_trunc", "proof_garbage"} -> "proof:parse"
-                  [] t = "proof_two_roots" -> "proof:roots" [] t = "proof_not_exotic" -> "not-merkle" [] t = "proof_stale_hash" -> "proof:malformed"
+                  [] t = "proof_two_roots" -> "proof:roots" [] t = "proof_not_exotic" -> "not-merkle" [] t \in {"proof_stale_hash", "proof_stored_hash"} -> "proof:malformed"
 HeaderCls(t) == CASE t \in {"proof_trunc", "proof_garbage", "proof_two_roots"} -> "no" [] t \in {"info_pruned", "proof_not_exotic"} -> "unclear"
                   [] OTHER -> "value"
 HeaderRows == {[api |-> x[1], policy |-> x[2], via |-> "head", base |-> x[3], tamper |-> x[4], reason |-> HeaderRsn(x[4]), cls |-> HeaderCls(x[4]),
